@@ -125,6 +125,8 @@ def prefix_sid(tokeniser: Any) -> PrefixSid:  # noqa: C901
 
     if int(label_sid) < pow(2, 32):
         sr_attrs.append(SrLabelIndex.make_labelindex(int(label_sid)))
+    else:
+        raise ValueError(f'the label index of a BGP PrefixSid attribute is a 32 bit number, not {label_sid}')
 
     for srgb in srgb_data:
         if len(srgb) == SRGB_TUPLE_SIZE and int(srgb[0]) < pow(2, 24) and int(srgb[1]) < pow(2, 24):
